@@ -25,7 +25,13 @@ CONSTANTS MaxRestarts,   \* Fastly: a request may be restarted at most 3 times
           Urls,          \* request URLs = cache keys (vcl_hash keeps the default)
           Statuses,      \* status the stub backend answers with: 200 cacheable, 500 not
           DefinedChoices,\* sets of lifecycle subroutines the program defines (an absent one takes its default action)
-          JailChoices,   \* may a request put the client into the penalty box ({FALSE} or BOOLEAN)
+          JailChoices,   \* what a request does to the penalty box: "no", "long" (10 minutes), "short" (ShortTTL ticks)
+          LookChoices,   \* does a request look whether the client is in the penalty box (subset of BOOLEAN)
+          Waits,         \* ticks of real time that may pass between two requests ({0} = untimed)
+          ShortTTL,      \* lifetime in ticks of an object stored by the "shortttl" variant / of a "short" penalty
+          Timed,         \* offer the timed variants (the replayer then really sleeps: 1 tick = 150 ms)
+          Restricted,    \* offer only the behaviours that matter for lifetimes (keeps the timed cover small)
+          ObjVariants,   \* ... and among those the ones that vary object lifetimes (FALSE: penalty box only)
           KCover         \* how many trailing labels are part of the VIEW (k-switch cover)
 
 Subs == {"recv", "hash", "hit", "miss", "pass", "fetch", "error", "deliver", "log"}
@@ -36,7 +42,7 @@ SomeAbsent == {Subs, Subs \ {"hit", "miss", "pass"}, {"recv", "fetch", "log"}, S
 (* What a subroutine body can do.  "x_stmt" is the statement form, "x_ret" *)
 (* the return(x) form; "none" falls off the end.  fetch/hit carry the      *)
 (* variants that manipulate the object lifetime.                           *)
-Beh(s) ==
+BehAll(s) ==
   CASE s = "recv"    -> {"none", "lookup", "pass", "error_stmt", "error_ret", "restart_stmt", "restart_ret"}
     [] s = "hash"    -> {"none", "hash"}
     [] s = "hit"     -> {"none", "deliver", "pass", "error_stmt", "error_ret", "restart_stmt", "restart_ret", "expire"}
@@ -47,10 +53,17 @@ Beh(s) ==
     [] s = "error"   -> {"none", "deliver", "deliver_stale", "restart_stmt", "restart_ret"}
     [] s = "deliver" -> {"none", "deliver", "restart_stmt", "restart_ret"}
     [] s = "log"     -> {"none", "deliver"}
+BehFew(s) ==
+  IF ~ObjVariants THEN {"none"}
+  ELSE CASE s = "recv"    -> {"none", "pass"}
+         [] s = "hit"     -> {"none", "restart_ret"}
+         [] OTHER         -> {"none"}
+Beh(s) == (IF Restricted THEN BehFew(s) ELSE BehAll(s))
+             \cup (IF Timed /\ ObjVariants /\ s = "fetch" THEN {"shortttl"} ELSE {})
 
 IsRestart(b) == b \in {"restart_stmt", "restart_ret"}
 IsError(b)   == b \in {"error_stmt", "error_ret"}
-FallsOff(b)  == b \in {"none", "expire", "ttl0", "uncacheable"}
+FallsOff(b)  == b \in {"none", "expire", "ttl0", "uncacheable", "shortttl"}
 
 (***************************************************************************)
 (* REQUIREMENT: successor of (subroutine, behaviour).  Result is a         *)
@@ -109,8 +122,11 @@ VARIABLES
   cache,     \* url |-> "none" | "fresh" | "expired"   (persists across requests)
   ttl0,      \* vcl_fetch set beresp.ttl = 0s in this attempt
   uncache,   \* vcl_fetch set beresp.cacheable = false in this attempt
-  jailed,    \* shared penalty box: some earlier request put the client in (entries live for minutes)
-  jail,      \* this request puts the client into the penalty box (after looking whether it is in)
+  now,       \* real time in ticks (advances only between requests)
+  expiry,    \* url |-> tick at which a "timed" object expires
+  jailUntil, \* shared penalty box: tick until which the client is in it (0 = never put in)
+  jail,      \* what this request does to the penalty box: "no" | "short" | "long" (after looking)
+  look,      \* this request looks whether the client is in the penalty box
   count,     \* shared rate counter: every request increments it once, on its first entry into vcl_recv
   young,     \* the object under `url` was stored during this request (its entry time is "now")
   pc,        \* "run" | "done" (request finished ok) | "err" (reported error) | "stop"
@@ -120,24 +136,32 @@ VARIABLES
   cur,       \* record of the request in progress
   hist       \* completed request records
 
-vars == <<req, url, status, scope, viaPass, restarts, branch, didLookupHit, attempt, cache, count, jailed, jail, ttl0, uncache, young, pc, lastK, defined, cur, hist>>
-View == <<req, url, status, scope, viaPass, restarts, branch, didLookupHit, attempt, cache, count, jailed, jail, ttl0, uncache, young, pc, lastK, defined>>
+vars == <<req, url, status, scope, viaPass, restarts, branch, didLookupHit, attempt, cache, now, expiry, count, jailUntil, jail, look, ttl0, uncache, young, pc, lastK, defined, cur, hist>>
+View == <<req, url, status, scope, viaPass, restarts, branch, didLookupHit, attempt, cache, now, expiry, count, jailUntil, jail, look, ttl0, uncache, young, pc, lastK, defined>>
 
-NewCur(u, st, c) == [url |-> u, status |-> st, prog |-> <<>>, flows |-> <<>>, storedBefore |-> (c[u] = "fresh"), seen |-> 0, sawJail |-> FALSE, jail |-> FALSE]
+LongTicks == 1000
+IsFresh(c, e, t, u) == c[u] = "fresh" \/ (c[u] = "timed" /\ t < e[u])
+Fresh(u) == IsFresh(cache, expiry, now, u)
+NewCur(u, st, sb) == [url |-> u, status |-> st, prog |-> <<>>, flows |-> <<>>, storedBefore |-> sb, seen |-> 0,
+                      sawJail |-> FALSE, jail |-> "no", look |-> FALSE, wait |-> 0, t |-> 0]
+\* a request may jail only when the client is not in the box at that moment (no overwrite of a running penalty)
+JailOpts(t, ju) == {j \in JailChoices : j = "no" \/ ~(t < ju)}
 
 Init ==
   /\ req = 1 /\ url \in Urls /\ status \in Statuses
   /\ scope = "recv" /\ viaPass = FALSE /\ restarts = 0 /\ branch = "none" /\ didLookupHit = FALSE /\ attempt = "none"
-  /\ cache = [u \in Urls |-> "none"] /\ count = 0 /\ jailed = FALSE /\ jail \in JailChoices /\ ttl0 = FALSE /\ uncache = FALSE /\ young = FALSE
+  /\ cache = [u \in Urls |-> "none"] /\ now = 0 /\ expiry = [u \in Urls |-> 0]
+  /\ count = 0 /\ jailUntil = 0 /\ jail \in JailChoices /\ look \in LookChoices /\ ttl0 = FALSE /\ uncache = FALSE /\ young = FALSE
   /\ pc = "run" /\ lastK = <<>> /\ defined \in DefinedChoices
-  /\ cur = [NewCur(url, status, cache) EXCEPT !.jail = jail] /\ hist = <<>>
+  /\ cur = [NewCur(url, status, FALSE) EXCEPT !.jail = jail, !.look = look] /\ hist = <<>>
 
 PushK(l, x) == IF KCover = 0 THEN <<>> ELSE IF Len(l) < KCover THEN Append(l, x) ELSE Append(Tail(l), x)
 
 (* updateCache(): called at the end of ProcessFetch whatever path led there *)
 (* (also on the pass path - a named deviation from Fastly, see DESIGN C06). *)
 Cacheable(st) == st \in {200, 203, 300, 301, 302, 404, 410}
-StoreAfterFetch(c, u, st, t0, unc) == IF Cacheable(st) /\ ~unc /\ ~t0 THEN [c EXCEPT ![u] = "fresh"] ELSE c
+StoreAfterFetch(c, u, st, t0, unc, short) ==
+  IF Cacheable(st) /\ ~unc /\ ~t0 THEN [c EXCEPT ![u] = (IF short THEN "timed" ELSE "fresh")] ELSE c
 
 (* One subroutine runs and chooses behaviour b.  `logged` says whether the  *)
 (* subroutine is defined (an absent one leaves no flow entry and takes its  *)
@@ -149,7 +173,7 @@ MechCache(s, b) ==
       unc == (s = "fetch" /\ b = "uncacheable") IN
   \* the restart *statement* over the limit raises its error inside vcl_fetch, before updateCache() runs
   IF s = "fetch" /\ b = "restart_stmt" /\ restarts >= MaxRestarts THEN cache
-  ELSE IF s = "fetch" THEN StoreAfterFetch(cache, url, status, t0, unc)
+  ELSE IF s = "fetch" THEN StoreAfterFetch(cache, url, status, t0, unc, b = "shortttl")
   ELSE IF s = "hit" /\ b = "expire" THEN [cache EXCEPT ![url] = "expired"]
   ELSE cache
 
@@ -157,26 +181,28 @@ StepGen(b, logged, c1, absentRecv) ==
   LET s   == scope
       nx0 == IF ~logged /\ s = "recv" THEN absentRecv ELSE MSucc(s, b)
       \* hash: where control goes after vcl_hash
-      nx  == IF s = "hash" THEN (IF viaPass THEN "pass" ELSE IF cache[url] = "fresh" THEN "hit" ELSE "miss") ELSE nx0
+      nx  == IF s = "hash" THEN (IF viaPass THEN "pass" ELSE IF Fresh(url) THEN "hit" ELSE "miss") ELSE nx0
   IN
   /\ pc = "run"
   /\ b \in Beh(s)
   \* `set obj.ttl = 1ms` expires the object at entry time + 1ms: deterministic only for an object stored by an
   \* earlier request (the replayer pauses 2ms between requests), so the variant is offered only then
   /\ (b = "expire") => ~young
-  /\ young' = (IF s = "fetch" /\ c1[url] = "fresh" THEN TRUE ELSE young)
+  /\ young' = (IF s = "fetch" /\ c1[url] \in {"fresh", "timed"} THEN TRUE ELSE young)
+  /\ expiry' = (IF s = "fetch" /\ b = "shortttl" /\ c1[url] = "timed" THEN [expiry EXCEPT ![url] = now + ShortTTL] ELSE expiry)
   \* the generated program increments the shared rate counter on the first entry into vcl_recv and logs the
   \* count it got back: state that outlives a request persists (the n-th request served sees n)
   /\ count' = (IF logged /\ s = "recv" /\ restarts = 0 THEN count + 1 ELSE count)
   \* ... and looks whether the client is in the penalty box, then (if this request is a jailer) puts it in
-  /\ jailed' = (IF logged /\ s = "recv" /\ restarts = 0 THEN jailed \/ jail ELSE jailed)
-  /\ UNCHANGED jail
+  /\ jailUntil' = (IF logged /\ s = "recv" /\ restarts = 0 /\ jail # "no"
+                   THEN now + (IF jail = "short" THEN ShortTTL ELSE LongTicks) ELSE jailUntil)
+  /\ UNCHANGED <<jail, look, now>>
   /\ cur' = IF logged
             THEN [cur EXCEPT !.prog = Append(@, [sub |-> s, at |-> restarts, beh |-> b, vp |-> viaPass,
-                                                 stored |-> (cache[url] = "fresh")]),
+                                                 stored |-> Fresh(url)]),
                              !.flows = Append(@, s),
                              !.seen = (IF s = "recv" /\ restarts = 0 THEN count + 1 ELSE @),
-                             !.sawJail = (IF s = "recv" /\ restarts = 0 THEN jailed ELSE @)]
+                             !.sawJail = (IF s = "recv" /\ restarts = 0 THEN (look /\ now < jailUntil) ELSE @)]
             ELSE cur
   /\ lastK' = PushK(lastK, <<s, b>>)
   /\ cache' = c1
@@ -214,20 +240,23 @@ FinalBranch(fl, i) ==
   ELSE FinalBranch(fl, i - 1)
 CurDone == [url |-> cur.url, status |-> cur.status, prog |-> cur.prog, flows |-> cur.flows,
             storedBefore |-> cur.storedBefore, seen |-> cur.seen, sawJail |-> cur.sawJail, jail |-> cur.jail,
-            restarts |-> restarts,
+            look |-> cur.look, wait |-> cur.wait, t |-> cur.t, restarts |-> restarts,
             outcome |-> (IF pc = "done" THEN "ok" ELSE "error"), branch |-> branch, cached |-> didLookupHit,
-            storedAfter |-> (cache[cur.url] = "fresh"),
+            storedAfter |-> Fresh(cur.url),
             finalBranch |-> attempt]
 
 NextRequest ==
   /\ pc \in {"done", "err"} /\ req < MaxReq
   /\ hist' = Append(hist, CurDone)
-  /\ req' = req + 1 /\ url' \in Urls /\ status' \in Statuses /\ jail' \in JailChoices
+  /\ req' = req + 1 /\ url' \in Urls /\ status' \in Statuses
+  /\ \E w \in Waits : now' = now + w
+  /\ jail' \in JailOpts(now', jailUntil) /\ look' \in LookChoices
   /\ scope' = "recv" /\ viaPass' = FALSE /\ restarts' = 0 /\ branch' = "none" /\ didLookupHit' = FALSE /\ attempt' = "none"
   /\ ttl0' = FALSE /\ uncache' = FALSE /\ young' = FALSE /\ pc' = "run"
-  /\ lastK' = PushK(lastK, <<"next", url'>>)
-  /\ cur' = [NewCur(url', status', cache) EXCEPT !.jail = jail']
-  /\ UNCHANGED <<cache, count, jailed, defined>>
+  /\ lastK' = PushK(lastK, <<"next", url', now' - now>>)
+  /\ cur' = [NewCur(url', status', IsFresh(cache, expiry, now', url')) EXCEPT !.jail = jail', !.look = look',
+                                                                          !.wait = now' - now, !.t = now']
+  /\ UNCHANGED <<cache, expiry, count, jailUntil, defined>>
 
 Next == (\E b \in Beh(scope) : Step(b)) \/ Skip \/ NextRequest
 Spec == Init /\ [][Next]_vars /\ WF_vars(Next)
@@ -260,8 +289,11 @@ PathOK == defined = Subs => \A i \in 1..(Len(cur.flows) - 1) : EdgeOK(i)
 \* the rate counter persists: the n-th request of a history sees n
 CounterPersists == (Len(cur.flows) > 0 /\ "recv" \in defined) => cur.seen = req
 
-\* the penalty box persists: a request sees the client jailed iff an earlier request of the history jailed it
-JailPersists == (Len(cur.flows) > 0 /\ "recv" \in defined) => (cur.sawJail = \E i \in 1..Len(hist) : hist[i].jail)
+\* the penalty box persists: a request that looks sees the client jailed iff an earlier request of the history put
+\* it in and that penalty has not run out (stated over the history, independently of jailUntil)
+Covers(h, t) == h.jail = "long" \/ (h.jail = "short" /\ t < h.t + ShortTTL)
+JailPersists == (Len(cur.flows) > 0 /\ "recv" \in defined /\ cur.look)
+                   => (cur.sawJail = \E i \in 1..Len(hist) : Covers(hist[i], cur.t))
 
 \* never a hit on the first request to a fresh simulator
 FirstRequestMisses == (req = 1 /\ restarts = 0) => branch # "HIT"
@@ -288,13 +320,13 @@ RECURSIVE Rest(_, _, _, _, _)
 Log(acc, s) == IF s \in defined THEN [acc EXCEPT !.flows = Append(@, s)] ELSE acc
 Rest(s, vp, c, acc, br) ==
   IF s = "hash" THEN
-       LET n == IF vp THEN "pass" ELSE IF c[url] = "fresh" THEN "hit" ELSE "miss" IN
+       LET n == IF vp THEN "pass" ELSE IF IsFresh(c, expiry, now, url) THEN "hit" ELSE "miss" IN
        Rest(n, vp, c, [Log(acc, "hash") EXCEPT !.branch = (IF n = "hit" THEN "HIT" ELSE "MISS"),
                                               !.attempt = (IF n = "hit" THEN "HIT" ELSE "MISS"),
                                               !.cached = (n = "hit")], br)
   ELSE LET nx == IF s = "recv" /\ s \notin defined THEN "HASHPASS" ELSE MSucc(s, "none")
            a1 == Log(acc, s)
-           c1 == IF s = "fetch" THEN StoreAfterFetch(c, url, status, FALSE, FALSE) ELSE c IN
+           c1 == IF s = "fetch" THEN StoreAfterFetch(c, url, status, FALSE, FALSE, FALSE) ELSE c IN
        IF nx = "END" THEN [a1 EXCEPT !.cache = c1]
        ELSE IF nx = "LOOKUP" THEN Rest("hash", FALSE, c1, a1, br)
        ELSE IF nx = "HASHPASS" THEN Rest("hash", TRUE, c1, a1, br)
@@ -308,9 +340,10 @@ Completed ==
      [url |-> cur.url, status |-> cur.status, prog |-> cur.prog, flows |-> r.flows,
       storedBefore |-> cur.storedBefore,
       seen |-> (IF FirstRecvPending /\ "recv" \in defined THEN count + 1 ELSE cur.seen),
-      sawJail |-> (IF FirstRecvPending /\ "recv" \in defined THEN jailed ELSE cur.sawJail), jail |-> cur.jail,
+      sawJail |-> (IF FirstRecvPending /\ "recv" \in defined THEN (look /\ now < jailUntil) ELSE cur.sawJail),
+      jail |-> cur.jail, look |-> cur.look, wait |-> cur.wait, t |-> cur.t,
       restarts |-> restarts, outcome |-> "ok",
-      branch |-> r.branch, cached |-> r.cached, storedAfter |-> (r.cache[cur.url] = "fresh"),
+      branch |-> r.branch, cached |-> r.cached, storedAfter |-> IsFresh(r.cache, expiry, now, cur.url),
       finalBranch |-> r.attempt]
   ELSE CurDone
 
